@@ -5,7 +5,7 @@ from .model import MNode, MTree
 from .world import World
 
 LABELS = "abcdefgh"
-IDS = ["#x0", "#x1", "#x2", "#x3", 9001, 9002]
+IDS = ["#x0", "#x1", "#x2", "#x3", 9001, 9002, 0, ""]
 KINDS = ["k0", "k1", "k2"]
 
 
@@ -293,8 +293,10 @@ def gen_move(rng, cfg, w: World, opid: int, invalid: bool, steer: bool):
     op["target"] = ref_of(si, t)
     same_parent = t is nm.parent
     b = pick_before(rng, t, allow_int=not same_parent)
-    if isinstance(b, dict) and b["node"] == nm.uid:
+    if isinstance(b, dict) and b["node"] == nm.uid and not invalid:
         b = "absent"
+    if invalid and rng.random() < 0.15:
+        b = {"node": nm.uid}
     if invalid and rng.random() < 0.4:
         o = other_node_not_child(rng, w, si, t)
         if o is not None and o is not nm:
